@@ -17,11 +17,17 @@ def wf (c : Case) : Bool :=
   C01.wf { c.base with call := { pos := [], kw := [] } } &&
   -- the original is a fully constructed instance: every init field is set
   (attrs.filter (·.init)).all (fun a => (curOf c.cur a.name).isSome) &&
-  -- copying (assoc) presupposes that every field is set, as C10 states for copies
-  (c.op == .evolve || c.cur.all (·.2.isSome))
+  -- copying (assoc) through a generated `__getstate__` presupposes that every field is set, as C10 states for
+  -- copies; a plain dict copy carries an unset field over as unset
+  (c.op == .evolve || c.cur.all (·.2.isSome) || !c.copyNeedsAll)
+
+/-- K12a: `assoc` is given a name that is no field but resolves on the fields tuple (`count`, `index`, `__len__` …) -/
+def tupleName (c : Case) : Bool :=
+  c.op == .assoc && c.changes.any (fun kv => !c.base.run.attrs.any (·.name == kv.1) && resolvesOnTuple.contains kv.1)
 
 def known (c : Case) : List String :=
-  C01.known c.base ++ (if cacheMisplaced c.base.run && c.op == .evolve then ["K2"] else [])
+  C01.known c.base ++ (if cacheMisplaced c.base.run && c.op == .evolve then ["K2"] else []) ++
+  (if tupleName c then ["K12a"] else [])
 
 /-- the value evolve passes for an init field: the change, else the current value -/
 def passedFor (c : Case) (a : Attr) : Option Val :=
@@ -32,30 +38,52 @@ def passedFor (c : Case) (a : Attr) : Option Val :=
 /-- the object a judged field must hold: the one given as the change, else the original's -/
 def identDemand (changed : Bool) : Ident := if changed then .passed else .orig
 
+/-- … and a field the original does not hold and that is not named stays unset (assoc) -/
+def identDemandV (changed : Bool) (v : Option Val) : Ident :=
+  if changed then .passed else if v.isSome then .orig else .unset
+
+/-- what a direct call of the class with evolve's arguments stores: changed fields hold conv(new), other init
+    fields conv(current), init=False fields are re-derived -/
+def expectedValues (c : Case) : List (String × Option Val) :=
+  c.base.run.attrs.map (fun a => (a.name,
+    if a.init then (passedFor c a).map (convApply a)
+    else match a.dflt with
+      | .none => none
+      | .value => some (convApply a (dfltVal a))
+      | .factory ts => some (convApply a (factoryVal a ts))))
+
+/-- some validator of the class (of ANY field that gets a statement, changed or carried over) rejects the
+    instance holding those values: the class refuses to construct it -/
+def vetoed (c : Case) : Bool :=
+  c.base.run.cfg.runValidators &&
+  (validatorIds c.base.run.attrs).any (fun ni => vetoFires c.veto (expectedValues c) ni.1 ni.2)
+
 def spec (c : Case) (o : Obs) : Bool :=
   let attrs := c.base.run.attrs
   o.orig == c.cur &&
   (match c.op with
    | .evolve =>
      if c.changes.all (fun kv => (attrs.filter (·.init)).any (·.alias == kv.1)) then
-       o.exc == none && o.fresh && o.invariants &&
-       -- changed fields hold conv(new), other init fields conv(current), init=False fields are re-derived
-       o.values == attrs.map (fun a => (a.name,
-         if a.init then (passedFor c a).map (convApply a)
-         else match a.dflt with
-           | .none => none
-           | .value => some (convApply a (dfltVal a))
-           | .factory ts => some (convApply a (factoryVal a ts)))) &&
-       -- an init field without converter holds the very object given for it (the change, else the original's)
-       (attrs.filter (·.init)).all (fun a => a.conv.isSome ||
-         o.ident.contains (a.name, identDemand (c.changes.any (·.1 == a.alias))))
+       -- evolve is a call of the class with (changes ∪ current values): same exception, values, callbacks
+       o.likeDirect &&
+       (if vetoed c then
+          -- what the class refuses to construct evolve must not hand out: the validator's exception
+          o.exc == some .user
+        else
+          o.exc == none && o.fresh && o.invariants &&
+          o.values == expectedValues c &&
+          -- an init field without converter holds the very object given for it (the change, else the original's)
+          (attrs.filter (·.init)).all (fun a => a.conv.isSome ||
+            o.ident.contains (a.name, identDemand (c.changes.any (·.1 == a.alias)))))
      else o.exc == some .typeError
    | .assoc =>
      if c.changes.all (fun kv => attrs.any (·.name == kv.1)) then
        o.exc == none && o.fresh && o.invariants &&
        o.values == c.cur.map (fun kv => (kv.1, match lookup kv.1 c.changes with | some w => some w | none => kv.2)) &&
        -- replaced means replaced by the object given (also when it equals the old one); the rest is shared
-       c.cur.all (fun kv => o.ident.contains (kv.1, identDemand (c.changes.any (·.1 == kv.1))))
+       c.cur.all (fun kv => o.ident.contains (kv.1, identDemandV (c.changes.any (·.1 == kv.1)) kv.2)) &&
+       -- raw writes: no converter, validator or hook of the class runs
+       o.trace == []
      else o.exc == some .notFound)
 
 def check : Check Case Obs := { model := model, spec := spec, wf := wf, known := known }
